@@ -681,6 +681,20 @@ class Inliner:
                 body, _k = _Elim(lambda val, s_: [], False).run(body, True)
             self._fctx = fctx
             pre, gbody = self._prepare(g, call, caller_names, stack)
+            # `yield v` with v a local of the generator and a plain loop target t: let the generator's
+            # variable BE t (instead of `t = v` in front of the body), when t is free in the generator
+            if isinstance(st.target, ast.Name):
+                t_ = st.target.id
+                ys = {n.value.value.id for s_ in gbody for n in ast.walk(s_) if isinstance(n, ast.Expr) and isinstance(n.value, ast.Yield) and isinstance(n.value.value, ast.Name)}
+                used = {n.id for s_ in pre + gbody for n in ast.walk(s_) if isinstance(n, ast.Name)}
+                if len(ys) == 1 and t_ not in used:
+                    y_ = next(iter(ys))
+                    stored = any(isinstance(n, ast.Name) and n.id == y_ and isinstance(n.ctx, ast.Store) for s_ in gbody for n in ast.walk(s_))
+                    if stored:
+                        for s_ in gbody:
+                            for n in ast.walk(s_):
+                                if isinstance(n, ast.Name) and n.id == y_:
+                                    n.id = t_
             n_sites = [0]
 
             def repl(stmts):
